@@ -118,7 +118,10 @@ def oracle(run: runner.Run, oc: Outcome) -> None:
         t_close = min([e[1] for e in run.sim.trace if e[2] == 'session-close' and e[3] == op.actor], default=None)
         late = [c for c in run.calls if c.hkind in ('daemon', 'timer') and c.inc == op.incarnation
                 and t_close is not None and c.t1 is not None and c.t1 > t_close]
-        oc.add('C09/exit-incomplete', 'daemon-outlived-session' if late else 'still-running',
+        late_sync = [c for c in run.calls if c.hkind == 'daemon' and c.inc == op.incarnation and (c.extra or {}).get('sync')
+                     and c.t1 is None and c.t0 > t_stop + 1e-6]
+        oc.add('C09/exit-incomplete', 'sync-daemon-spawned-after-stop-requested' if late_sync else
+               'daemon-outlived-session' if late else 'still-running',
                f"the operator was asked to stop at t={t_stop:.2f} but at t={t_end:.2f} it is still "
                f"{'running' if op.state == 'running' else 'hanging with leftover tasks'}")
 
